@@ -197,7 +197,7 @@ def flow_dataflow(ctx, repo, c, sv, ld):
     mine = [e for e in ev.events if e.func is sv]
     dts = [e for e in mine if e.callee == "method:save" and len(e.args) >= 3 and e.args[2] == T.K("data_transform")]
     ok1 = len(dts) == 1 and dts[0].args[0][0] == "f" and dts[0].args[0][1] == "method:pop" and dts[0].args[0][2][1] == T.K("data_transform") \
-        and [(cc, pp) for cc, pp in dts[0].conds] == [(("not", ("is", dts[0].args[0], T.NONE)), True)]
+        and [(cc, pp) for cc, pp in dts[0].conds] == [(("is", dts[0].args[0], T.NONE), False)]
     ctx.decide(ok1, "C13.flow", f"{c.ident}", loc_of(sv, dts[0].node if dts else None), "save writes the data transform whenever the flow has one",
                "save does not write the flow's data transform exactly when it has one: the reloaded flow evaluates densities without (or with another) rescaling", disc="save|data_transform")
     cfgs = [e for e in mine if e.callee.endswith("recursively_save_to_h5_file") and not e.conds and len(e.args) >= 3 and e.args[1] == T.K("config")
@@ -262,19 +262,20 @@ def run(ctx):
     sf = next(iter(rs.nested.values()), None)
     ok, why = False, "flattening helper not found"
     if sf is not None:
-        fr = Frame(Evaluator(repo), sf, None, 1)
-        for n in walk_no_nested(sf.node):
-            if isinstance(n, ast.If):
-                t = fr.eval(n.test, State())
-                parts = list(t[1]) if t[0] == "and" else [t]
-                isdict = [p for p in parts if p[0] == "f" and p[1] == "isinstance" and p[2][1] == ("ref", "builtins.dict")]
-                if isdict:
-                    val = isdict[0][2][0]
-                    nonempty = [p for p in parts if p == val or (p[0] == "f" and p[1] == "len" and p[2][0] == val) or (p[0] == "cmp" and any(s == val for s in T.subterms(p)))]
-                    recurses = any(isinstance(c, ast.Call) and isinstance(c.func, ast.Name) and c.func.id == sf.name for b in n.body for c in ast.walk(b))
-                    if recurses:
-                        ok = bool(nonempty)
-                        why = "a dict value is recursed into even when it is empty: nothing is written for it and the key vanishes on reload (the '__empty_dict__' sentinel is unreachable)"
+        from .common import flat_conds
+        evf = Evaluator(repo, max_depth=0)
+        evf.run(sf, None)
+        rec = [e for e in evf.events if e.func is sf and e.callee in (f"call:{sf.name}", sf.ident)]
+        why = "the flattening helper does not recurse into nested dicts"
+        for e in rec:
+            fc = flat_conds(e.conds)
+            isdict = [c for c, pol in fc if pol and c[0] == "f" and c[1] == "isinstance" and c[2][1] == ("ref", "builtins.dict")]
+            if not isdict:
+                continue
+            val = isdict[0][2][0]
+            nonempty = [c for c, pol in fc if (pol and c == val) or (c[0] == "f" and c[1] == "len" and c[2][0] == val) or (c[0] == "cmp" and any(x == val for x in T.subterms(c)))]
+            ok = bool(nonempty)
+            why = "a dict value is recursed into even when it is empty: nothing is written for it and the key vanishes on reload (the '__empty_dict__' sentinel is unreachable)"
     ctx.decide(ok, "C13.empty", rs.ident, loc_of(rs), "only non-empty dict values are flattened recursively; an empty dict reaches the encoder and is stored as its sentinel", why)
     # flattening separator
     sep_w = None
